@@ -276,6 +276,10 @@ class Outcome:
                 self.digests.setdefault(label, {})[(j["section"], j["first_case"], j["cases"])] = j["hash"]
             elif t == "note":
                 self.observed.setdefault("notes", []).append(j.get("text"))
+        if rr.stderr and any(j.get("type") == "violation" for j in rr.records):
+            ex = self.observed.setdefault("tool_stderr_excerpts", [])
+            if len(ex) < 3:
+                ex.append(rr.stderr[-2500:])
         if rr.timed_out:
             self.inconclusive.append({"reason": "driver timed out", "cmd": " ".join(rr.cmd)})
         elif summaries == 0:
@@ -321,6 +325,33 @@ def run_sharded(out, exe, args, vname, cases, shards=None, first=0, timeout=900,
     out.evaluations += cases
     if vname not in out.variants:
         out.variants.append(vname)
+
+
+def build_cxx_driver(name, cxx_sources, c_sources, vname, incs=(), extra=(), libs=()):
+    """Mixed build: C harness files with the variant's C compiler, C++ files with the matching C++ compiler, linked with it."""
+    v = Variant(vname)
+    libdir = build_lib(vname)
+    cxx = "g++" if v.cc == "gcc" else "clang++"
+    tag = re.sub(r"[^A-Za-z0-9]", "_", vname)
+    objs = []
+    cflags = v.harness_flags()
+    cxxflags = [f for f in cflags if not f.startswith("-std=")] + ["-std=gnu++11", "-Wno-unused-variable"]
+    inc = ["-I" + os.path.join(REPO, "include"), "-I" + HARNESS] + ["-I" + i for i in incs]
+
+    def comp(job):
+        cc, flags, src = job
+        obj = os.path.join(workdir(), "%s-%s-%s.o" % (name, tag, re.sub(r"[^A-Za-z0-9]", "_", os.path.basename(src))))
+        p = sh([cc] + flags + list(extra) + inc + ["-c", src, "-o", obj])
+        if p.returncode != 0:
+            raise HarnessError("compile failed (%s, %s): %s" % (src, vname, p.stderr[-3000:]))
+        return obj
+    jobs = [(v.cc, cflags, os.path.join(HARNESS, s)) for s in list(c_sources) + COMMON_HARNESS] + [(cxx, cxxflags, s) for s in cxx_sources]
+    objs = list(pool().map(comp, jobs))
+    exe = os.path.join(workdir(), "%s-%s" % (name, tag))
+    p = sh([cxx] + v.san + objs + [os.path.join(libdir, "libskinny.a"), "-o", exe] + list(libs))
+    if p.returncode != 0:
+        raise HarnessError("link failed (%s, %s): %s" % (name, vname, p.stderr[-3000:]))
+    return exe
 
 
 # ---------------------------------------------------------------- known findings
